@@ -38,8 +38,8 @@ MANIFEST = {
             '(transcribed from the SuperCollider documentation), the SCgf '
             'reader. Where the sc3 docstring and the SuperCollider help '
             'disagree (Env.step release/loop numbering) or are silent (end '
-            'level of an exponential Env.cutoff, evaluation before time 0 or '
-            'with an offset) nothing is asserted.',
+            'level of an exponential Env.cutoff, evaluation before time 0) '
+            'nothing is asserted.',
 }
 RULE = (
     'encode: Hypothesis composite specs: 1-11 segments; levels from ints, '
@@ -71,8 +71,10 @@ ASSUMPTIONS = [
     'Encoding does not validate levels against shape preconditions; '
     'evaluation is only checked where the documented preconditions hold '
     '(exp: non-zero levels of one sign; sqr/cub: non-negative levels).',
-    'Evaluation laws are checked with offset 0 and for t >= 0 only; for t < 0 '
-    'only "returns a finite number" is checked (the statement is silent).',
+    'Evaluation laws are checked for t >= 0 only; for t < 0 only "returns a '
+    'finite number" is checked (the statement is silent). An offset ("an '
+    'offset to all time values") moves every breakpoint; before the first '
+    'breakpoint the envelope is at its initial level.',
     'At the instant a step segment starts either neighbouring level is '
     'accepted; with zero-length segments any of the coincident breakpoint '
     'levels is accepted.',
@@ -353,7 +355,17 @@ def run_at(case, v):
         if t < 0:
             clauses.add('before')
             continue
-        clause, allowed = R.at_law(levels, times, curves, t)
+        off = spec.get('offset', 0)
+        if t < off:
+            # the first breakpoint (offset, initial level) has not come yet
+            # (what the laws allow at the first breakpoint itself: the
+            # initial level, or the target of a first 'step' segment)
+            t = 0
+            clause, allowed = R.at_law(levels, times, curves, 0)
+            clause = 'before_offset'
+        else:
+            t = t - off
+            clause, allowed = R.at_law(levels, times, curves, t)
         clauses.add(clause)
         cub = any(shp[k] == 7 for k in range(n) if T[k] <= t <= T[k + 1])
         tol = (1e-5 if cub else 1e-9) * scale
@@ -707,6 +719,14 @@ def at_case(draw):
     # arbitrary dyadic times, wherever they fall
     probes += [k / 16 for k in draw(st.lists(st.integers(0, 256),
                                              max_size=3))]
+    if draw(st.integers(0, 3)) == 0:
+        # an offset moves every breakpoint (Env.pairs / xyc give one when
+        # the first point is not at time 0): probes move along, and some
+        # fall before the first breakpoint
+        off = draw(st.sampled_from([0.25, 0.5, 1, 2.0, 3.5]))
+        spec['offset'] = off
+        probes = [t + off if t >= 0 else t for t in probes]
+        probes += [off * k / 4 for k in range(4)]
     return {'env': spec, 'probes': probes}
 
 
